@@ -216,7 +216,7 @@ def main(tier, seed):
     try:
         translate()
         run.obligation("translate:acceptance exponent + metric weights + warm-up test", True)
-    except TranslateError as e:
+    except Exception as e:  # fail closed: anything the translator cannot digest
         run.obligation("translate:acceptance exponent + metric weights + warm-up test", False, str(e))
     run.prove("Props/C10.v", link_rels=["Link/MIS.v", "Link/Schedule.v", "Link/Shift.v"], allowed_axioms=STDLIB_AXIOMS_REALS)
     try:
